@@ -226,7 +226,7 @@ def brute_differential(evs, n, k, imag):
 
 
 # ------------------------------------------------------------------ generators
-def gen_phis(rng, k, nev_max=4, mmax=9, flowy=None):
+def gen_phis(rng, k, nev_max=4, mmax=9, flowy=None, harm=2):
     nev = rng.randint(1, nev_max)
     same = rng.random() < 0.3
     m0 = rng.randint(k, mmax)
@@ -238,7 +238,7 @@ def gen_phis(rng, k, nev_max=4, mmax=9, flowy=None):
         ev = []
         while len(ev) < m:
             p = rng.uniform(-math.pi, math.pi)
-            if rng.random() < (1 + 2 * v * math.cos(2 * (p - psi))) / (1 + 2 * v):
+            if rng.random() < (1 + 2 * v * math.cos(harm * (p - psi))) / (1 + 2 * v):
                 ev.append(p)
         out.append(ev)
     return out
@@ -444,6 +444,164 @@ def brute_like_sign(phis, n, k):
 
 
 # ------------------------------------------------------------------ oracle search on the real code
+# ------------------------------------------------------------------ large multiplicities: partition formula
+def _set_partitions(items):
+    if not items:
+        yield []
+        return
+    first, rest = items[0], items[1:]
+    for part in _set_partitions(rest):
+        for i in range(len(part)):
+            yield part[:i] + [[first] + part[i]] + part[i + 1:]
+        yield [[first]] + part
+
+
+_PARTS = {}
+
+
+def partition_corr(phis, n, k):
+    """the defining average of cos n(phi_1+..-..) over distinct k-tuples, through Moebius inversion on the partition
+    lattice: sum_{distinct} prod_j z_{i_j}^{a_j} = sum_pi prod_{B in pi} (-1)^{|B|-1} (|B|-1)! P(sum_{j in B} a_j),
+    P(m) = sum_i e^{i m n phi_i}.  Independent of the expanded polynomials in the code and of the recursion of the model;
+    linear in the multiplicity, so usable where brute force is not (checked against brute force on small events by
+    `selftest_partition`)."""
+    h = k // 2
+    a = [1] * h + [-1] * h
+    if k not in _PARTS:
+        _PARTS[k] = [pi for pi in _set_partitions(list(range(k)))]
+    num = 0.0
+    den = 0
+    for ph in phis:
+        M = len(ph)
+        P = {m: complex(math.fsum(math.cos(m * n * x) for x in ph), math.fsum(math.sin(m * n * x) for x in ph)) for m in range(-h, h + 1)}
+        tot = 0j
+        for pi in _PARTS[k]:
+            t = 1 + 0j
+            for B in pi:
+                t *= (-1) ** (len(B) - 1) * math.factorial(len(B) - 1) * P[sum(a[j] for j in B)]
+            tot += t
+        num += tot.real
+        d = 1
+        for j in range(k):
+            d *= (M - j)
+        den += d   # exact Python integer
+    return num / den
+
+
+def partition_flow(phis, n, k, imag):
+    c2 = partition_corr(phis, n, 2)
+    if k == 2:
+        c, f = c2, 1.0
+    elif k == 4:
+        c, f = partition_corr(phis, n, 4) - 2 * c2 ** 2, -1.0
+    else:
+        c4 = partition_corr(phis, n, 4)
+        c, f = partition_corr(phis, n, 6) - 9 * c2 * c4 + 12 * c2 ** 3, 0.25
+    v = f * c
+    if v >= 0:
+        return v ** (1.0 / k), v
+    if imag == "negative":
+        return -((-v) ** (1.0 / k)), v
+    if imag == "zero":
+        return 0.0, v
+    return float("nan"), v
+
+
+def selftest_partition(rng):
+    for k in (2, 4, 6):
+        phis = gen_phis(rng, k, nev_max=2, mmax=7)
+        a, b = partition_corr(phis, 2, k), brute_corr(phis, 2, k)
+        if not close(a, b, rel=1e-9, abs_=1e-12):
+            raise AssertionError(f"harness self-test: partition formula {a} != brute force {b} (k={k})")
+
+
+def gen_big_phis(rng, k, harm=2):
+    """few events of large multiplicity with a clear elliptic modulation (so that the cumulants are far from 0);
+    sizes around the places where integer products M(M-1)...(M-k+1) leave 2^31, 2^53, 2^63"""
+    sizes = rng.choice([[40, 75], [130, 90, 210], [700, 512], [1449, 1500], [1700, 1460, 2050], [3000, 2600]])
+    v = rng.choice([0.25, 0.4])
+    psi0 = rng.uniform(-math.pi, math.pi)
+    out = []
+    for m in sizes:
+        ev = []
+        while len(ev) < m:
+            p = rng.uniform(-math.pi, math.pi)
+            if rng.random() < (1 + 2 * v * math.cos(harm * (p - psi0))) / (1 + 2 * v):
+                ev.append(p)
+        out.append(ev)
+    return out
+
+
+def check_integrated_big(phis, n, k, imag):
+    exp, v = partition_flow(phis, n, k, imag)
+    if abs(v) < 1e-7:
+        return None
+    parts = [[mk_particle(1.0, p, 0.0, 211) for p in ev] for ev in phis]
+    got = real_integrated(parts, n, k, imag)
+    if (exp != exp and got != got) or close(got, exp, rel=1e-5, abs_=1e-8):
+        return None
+    return (f"integrated-k{k}-large-multiplicity", f"integrated_flow n={n} k={k} imaginary={imag}, multiplicities "
+            f"{[len(e) for e in phis]}: code {got!r} != definition {exp!r} (partition formula)", dict(code=got, expected=exp))
+
+
+# ------------------------------------------------------------------ sessions on one estimator object and one list object
+def gen_session(rng):
+    k = rng.choice([2, 4, 6])
+    n = rng.randint(1, 3)
+    imag = rng.choice(IMAG)
+    nev = rng.randint(1, 3)
+    steps = []
+    for i in range(rng.randint(2, 4)):
+        how = "new" if i == 0 else rng.choice(["assign", "assign", "setitem", "reverse", "new"])
+        st = dict(how=how)
+        if how in ("new", "assign"):
+            keep = rng.random() < 0.7      # same number of events as before (a length-keyed memo survives)
+            m = nev if keep else rng.randint(1, 3)
+            st["phis"] = [gen_phis(rng, k, nev_max=1, mmax=7 if k == 6 else 8, flowy=rng.choice([0.0, 0.4]), harm=n)[0] for _ in range(m)]
+            nev = m
+        elif how == "setitem":
+            st["index"] = rng.randrange(nev)
+            st["event"] = gen_phis(rng, k, nev_max=1, mmax=7 if k == 6 else 8, flowy=0.4, harm=n)[0]
+        steps.append(st)
+    return dict(n=n, k=k, imaginary=imag, steps=steps)
+
+
+def run_session(sess, fresh=False):
+    """the caller keeps ONE list object and changes it in place between calls of ONE estimator object
+    (fresh=True: a new estimator and a new list per call).  Returns None or (step, key, what, detail)."""
+    from sparkx.flow.QCumulantFlow import QCumulantFlow
+    n, k, imag = sess["n"], sess["k"], sess["imaginary"]
+    o = QCumulantFlow(n=n, k=k, imaginary=imag)
+    data, cur = [], []
+    mkev = lambda ev: [mk_particle(1.0, p, 0.0, 211) for p in ev]
+    for i, st in enumerate(sess["steps"]):
+        how = st["how"]
+        if how == "new":
+            cur = [list(e) for e in st["phis"]]
+            data = [mkev(e) for e in cur]
+        elif how == "assign":
+            cur = [list(e) for e in st["phis"]]
+            data[:] = [mkev(e) for e in cur]
+        elif how == "setitem":
+            j = st["index"] % max(1, len(cur))
+            cur[j] = list(st["event"])
+            data[j] = mkev(cur[j])
+        elif how == "reverse":
+            cur.reverse()
+            data.reverse()
+        exp, v = brute_flow(cur, n, k, imag)
+        if abs(v) < 1e-6:
+            continue
+        if fresh:
+            got = float(QCumulantFlow(n=n, k=k, imaginary=imag).integrated_flow([list(e) for e in data])[0])
+        else:
+            got = float(o.integrated_flow(data)[0])
+        if not ((exp != exp and got != got) or close(got, exp, rel=1e-6, abs_=1e-8)):
+            return (i, f"integrated-k{k}", f"call {i + 1} of a session on one estimator and one list object ({how}): "
+                    f"integrated_flow n={n} k={k} imaginary={imag}: code {got!r} != definition {exp!r}", dict(code=got, expected=exp, step=i))
+    return None
+
+
 def check_integrated(phis, n, k, imag):
     parts = [[mk_particle(1.0, p, 0.0, 211) for p in ev] for ev in phis]
     exp, v = brute_flow(phis, n, k, imag)
@@ -536,6 +694,43 @@ def search(ctx, budget_s):
                                           dict(input=dict(kind="dfc", k=k, imaginary=im, cnk=c, dnk=d), detail=dict(got=got, want=want)))
     except NoPrivateAccess:
         ctx.count("oracle-fc/skipped-no-private-access")
+    # sessions: one estimator object, one list object changed in place between calls
+    n_sess = 200 if ctx.thorough else 12
+    for _ in range(n_sess):
+        if time.time() - t0 > budget_s:
+            break
+        sess = gen_session(rng)
+        r = run_session(sess)
+        ctx.case(("oracle-session", json.dumps(sess, sort_keys=True)), True)
+        ctx.count(f"oracle-session/k={sess['k']}/steps={len(sess['steps'])}")
+        n_cases += 1
+        if r:
+            sess["steps"] = sess["steps"][:r[0] + 1]
+            if run_session(sess, fresh=True) is None:
+                ctx.violation("instance-reuse-" + r[1], r[2] + " -- a fresh estimator on a fresh list answers correctly",
+                              dict(input=dict(kind="session", **sess), detail=r[3]))
+            else:
+                ctx.violation(r[1], r[2], dict(input=dict(kind="session", **sess), detail=r[3]))
+            break
+    # large multiplicities (brute force impossible): the partition formula is the reference
+    selftest_partition(rng)
+    for i in range(12 if ctx.thorough else 3):
+        if time.time() - t0 > budget_s:
+            break
+        k = (6, 4, 2)[i % 3] if i >= 1 else 6
+        n = rng.randint(1, 3)
+        imag = rng.choice(IMAG)
+        phis = gen_big_phis(rng, k, harm=n)
+        if i == 0:
+            while max(len(e) for e in phis) < 1449:
+                phis = gen_big_phis(rng, 6, harm=n)
+        r = check_integrated_big(phis, n, k, imag)
+        ctx.case(("oracle-big", n, k, imag, tuple(len(e) for e in phis), repr(phis[0][:3])), True)
+        ctx.count(f"oracle-big/k={k}/maxM={max(len(e) for e in phis)}")
+        n_cases += 1
+        if r:
+            ctx.violation(r[0], r[1], dict(input=dict(kind="integrated-big", n=n, k=k, imaginary=imag, phis=phis), detail=r[2]))
+            break
     limit = 3000 if ctx.thorough else 60
     # stratified: every k x imaginary mode must be seen with both signs of the cumulant
     need = {(k, im, sg) for k in (2, 4, 6) for im in IMAG for sg in (-1, 1)}
@@ -544,7 +739,7 @@ def search(ctx, budget_s):
         tries += 1
         k, im, sg = sorted(need)[tries % len(need)]
         n = rng.randint(1, 3)
-        phis = gen_phis(rng, k, nev_max=2, mmax=7 if k == 6 else 8, flowy=rng.choice([0.0, 0.4]))
+        phis = gen_phis(rng, k, nev_max=2, mmax=7 if k == 6 else 8, flowy=rng.choice([0.0, 0.4]), harm=n)
         try:
             _, v = brute_like_sign(phis, n, k)
         except NoPrivateAccess:
@@ -569,7 +764,7 @@ def search(ctx, budget_s):
             k = rng.choice([2, 4, 6])
             n = rng.randint(1, 3)
             imag = rng.choice(IMAG)
-            phis = gen_phis(rng, k, nev_max=3, mmax=7 if k == 6 else 8)
+            phis = gen_phis(rng, k, nev_max=3, mmax=7 if k == 6 else 8, harm=n)
             r = check_integrated(phis, n, k, imag)
             ctx.case(("oracle-int", n, k, imag, tuple(map(tuple, phis))), True)
             if r:
@@ -602,6 +797,11 @@ def replay(ctx, path):
             real_dfc(inp["k"], inp["imaginary"], inp["cnk"], inp["dnk"])
         ok = (want != want and got != got) or close(got, want, rel=1e-12, abs_=0.0)
         r = None if ok else ("fc", f"decision function returns {got!r}, the table of the property gives {want!r} on {inp}")
+    elif inp["kind"] == "session":
+        rr = run_session(inp)
+        r = None if rr is None else (rr[1], rr[2])
+    elif inp["kind"] == "integrated-big":
+        r = check_integrated_big(inp["phis"], inp["n"], inp["k"], inp["imaginary"])
     elif inp["kind"] == "integrated":
         r = check_integrated(inp["phis"], inp["n"], inp["k"], inp["imaginary"])
     else:
